@@ -18,10 +18,10 @@ from yatiml.introspection import class_subobjects
 from yatiml.irecognizer import format_rec_error
 from yatiml.recognizer import Recognizer
 from yatiml.util import (
-        find_recursive_alias, generic_type_args, is_generic_sequence,
-        is_generic_mapping,
-        is_generic_union, is_string_like, scalar_type_to_tag, strip_tags,
-        type_to_desc, yaml12_float_regex)
+        expand_aliases, find_recursive_alias, generic_type_args,
+        is_generic_sequence, is_generic_mapping, is_generic_union,
+        is_string_like, scalar_type_to_tag, strip_tags, type_to_desc,
+        yaml12_float_regex)
 
 logger = logging.getLogger(__name__)
 
@@ -68,7 +68,8 @@ class Loader(yaml.SafeLoader):
             mark = self.get_mark()
             node = yaml.ScalarNode('tag:yaml.org,2002:null', '', mark, mark)
         self.__check_not_recursive(node)
-        node = self.__process_node(node, type(self).document_type)
+        node = self.__process_node(
+                expand_aliases(node), type(self).document_type)
         return node
 
     def get_node(self) -> yaml.Node:
@@ -84,7 +85,8 @@ class Loader(yaml.SafeLoader):
         node = cast(yaml.Node, super().get_node())
         if node is not None:
             self.__check_not_recursive(node)
-            node = self.__process_node(node, type(self).document_type)
+            node = self.__process_node(
+                    expand_aliases(node), type(self).document_type)
         return node
 
     def __check_not_recursive(self, node: yaml.Node) -> None:
